@@ -2245,8 +2245,10 @@ static vbi_bool vbi_proxyd_take_message( PROXY_CLNT *req, VBIPROXY_MSG * pMsg )
                }
                req->chn_profile.is_valid = FALSE;
             }
-            else if (pBody->chn_notify_req.notify_flags & VBI_PROXY_CHN_TOKEN)
-            {
+            else if ( (pBody->chn_notify_req.notify_flags & VBI_PROXY_CHN_TOKEN) &&
+                      (req->chn_state.token_state != REQ_TOKEN_NONE) )
+            {  /* only a client which has (or is about to get) the token can return it:
+               ** else there would be two token owners on this device */
                req->chn_state.token_state = REQ_TOKEN_RETURNED;
                chn_upd = TRUE;
             }
